@@ -32,6 +32,21 @@ let class_of_info (i : info) : string =
     | Num.Bits b -> let h = hex_of_z b in "f" ^ String.make (16 - String.length h) '0' ^ h
     | Num.Infinite -> "inf"
 
+(* the lemma-family model of the integer path (Model/Number.v: wrapping accumulation, 19/20-digit
+   cut-over) is run on every plain integer literal and must agree with the specification's class *)
+let class_checked (i : info) : string =
+  let s = class_of_info i in
+  let d = Lazy.force i.dec in
+  if d.Num.plain_int && d.Num.mant <> Z0 then begin
+    let digits = Stdlib.List.filter_map (fun c -> let v = int_of_n c in if v >= 48 && v <= 57 then Some (z_of_int (v - 48)) else None) i.lit in
+    let m = Number.parse_int d.Num.neg digits in
+    let ok = match m with
+      | Number.Unsigned v -> s = "u" ^ hex_of_z v
+      | Number.Signed v -> s = "i" ^ hex_of_z v
+      | Number.FloatOfInt _ | Number.FloatPath _ -> String.length s > 0 && (s.[0] = 'f' || s = "inf") in
+    if ok then s else "!modelmismatch(Number.parse_int vs Spec.Num.classify): " ^ s
+  end else s
+
 let zpow2 k = BinInt.Z.pow (z_of_int 2) (z_of_int k)
 let zlt a b = BinInt.Z.ltb a b
 let zle a b = BinInt.Z.leb a b
@@ -54,7 +69,7 @@ let pad n h = String.make (max 0 (n - String.length h)) '0' ^ h
 let () =
   reg "numclass" (function h :: _ ->
       let i = info_of h in
-      if i.isnum then class_of_info i else "invalid" | _ -> raise (Bad_op "numclass"));
+      if i.isnum then class_checked i else "invalid" | _ -> raise (Bad_op "numclass"));
   reg "numstd" (function h :: _ ->
       let i = info_of h in
       (match Lazy.force i.rnd with Num.Bits b -> pad 16 (hex_of_z b) | Num.Infinite -> "inf") | _ -> raise (Bad_op "numstd"));
